@@ -1,6 +1,7 @@
 import Driver.Util
 import Driver.CompOps
 import FeemsModel.Model.Validate
+import FeemsModel.Model.History
 open Lean Feems Feems.Validate
 
 namespace Driver
@@ -44,6 +45,10 @@ def validateOp (op : String) (j : Json) : Except String Json := do
       let l := Comp.load rated (Comp.knotOut rated k)
       if (eta.get? l).isNone then return needJ "eta" l
     return Json.bool (monotoneMap eta.fn rated)
+  | "validate.number_points" =>
+    let units ← (← jArr (← fld j "units")).mapM fun e => do
+      return (⟨← jNat (← fld e "mode_len"), ← jBool (← fld e "shares_always"), ← jNat (← fld e "power_len")⟩ : History.UnitLens)
+    return natJ (History.numberPoints (← jNat (← fld j "consumers")) (← jNats (← fld j "status")) units (← jNats (← fld j "breakers")))
   | _ => throw s!"unknown op {op}"
 
 end Driver
